@@ -147,7 +147,10 @@ def run_c16(ctx):
     def check_child(cp, what):
         err = cp.stderr or ""
         out = cp.stdout or ""
-        for bad in ("Traceback", "SyntaxError", "Error:", "command not found", "No such file"):
+        # (the script's exit status is that of its last echo, so the embedded python
+        # program's fate has to be read from stderr)
+        for bad in ("Traceback (most recent call last)", "SyntaxError", "command not found",
+                    "syntax error"):
             if bad in err:
                 raise Violation("child-failed:" + what.split(" ")[0],
                                 "{}: stderr contains {!r}: ...{}".format(what, bad, err[-400:]))
@@ -248,8 +251,9 @@ def run_c16(ctx):
                 e[INDEX_VAR[scheduler]] = str(j)
                 cp = run_child(["bash", spath], e, root)
                 out = check_child(cp, "task {}".format(j))
-                if "XYZPY script finished" not in out:
-                    raise Violation("child-did-not-finish", "task {}: stdout ...{}".format(j, out[-200:]))
+                if cp.returncode != 0:
+                    raise Violation("child-exit-status", "task {} exited {}: ...{}".format(
+                        j, cp.returncode, (cp.stderr or out)[-200:]))
                 after = G.snapshot_tree(os.path.join(location, "results")) or {}
                 created, removed, modified = G.diff_trees(before, after)
                 want_b = targeted[j - 1]
@@ -274,8 +278,9 @@ def run_c16(ctx):
             before_tree = G.snapshot_tree(os.path.join(location, "results")) or {}
             cp = run_child(["bash", spath], dict(env), root)
             out = check_child(cp, "single job")
-            if "XYZPY script finished" not in out:
-                raise Violation("child-did-not-finish", "single job: stdout ...{}".format(out[-200:]))
+            if cp.returncode != 0:
+                raise Violation("child-exit-status", "single job exited {}: ...{}".format(
+                    cp.returncode, (cp.stderr or out)[-200:]))
             after_tree = G.snapshot_tree(os.path.join(location, "results")) or {}
             created, removed, modified = G.diff_trees(before_tree, after_tree)
             touched = {int(re.findall(r"xyz-result-(\d+)\.jbdmp$", p)[0]) for p in created + modified}
